@@ -101,19 +101,21 @@ Star(s) == [t |-> "star", s |-> s, n |-> -1]
 Rep(s, n) == [t |-> "star", s |-> s, n |-> n]             \* the counted quantifier {0,n}: greedy, at most n characters
 Bol == [t |-> "bol", s |-> {}]
 Eol == [t |-> "eol", s |-> {}]
-AnyChar(u) == IF u THEN {"a", "b", "H", "L", "X"} ELSE {"a", "b", "H", "L"}
-Alts(p, u) ==
+\* the matcher's mode: u (code points), ml (multiline: ^ / $ also at line terminators), ds (dotAll: . also matches a line terminator)
+Md(f) == [u |-> "u" \in f, ml |-> "m" \in f, ds |-> "s" \in f]
+AnyChar(m) == (IF m.u THEN {"a", "b", "H", "L", "X"} ELSE {"a", "b", "H", "L"}) \cup (IF m.ds THEN {"n"} ELSE {})
+Alts(p, m) ==
   CASE p = "a"      -> << <<C1({"a"})>> >>
     [] p = "ab"     -> << <<C1({"a"}), C1({"b"})>> >>
     [] p = "(?:)"   -> << <<>> >>
     [] p = "b*"     -> << <<Star({"b"})>> >>
     [] p = "b{0,2}" -> << <<Rep({"b"}, 2)>> >>
     [] p = "a|b"    -> << <<C1({"a"})>>, <<C1({"b"})>> >>
-    [] p = "."      -> << <<C1(AnyChar(u))>> >>
+    [] p = "."      -> << <<C1(AnyChar(m))>> >>
     [] p = "^a"     -> << <<Bol, C1({"a"})>> >>
     [] p = "a$"     -> << <<C1({"a"}), Eol>> >>
     \* the source text is one astral character: one code point under u, its two code units otherwise
-    [] p = "astral" -> IF u THEN << <<C1({"X"})>> >> ELSE << <<C1({"H"}), C1({"L"})>> >>
+    [] p = "astral" -> IF m.u THEN << <<C1({"X"})>> >> ELSE << <<C1({"H"}), C1({"L"})>> >>
     \* \uD835: under u only a LONE high surrogate is this character (the half of a pair is part of X)
     [] p = "loneH"  -> << <<C1({"H"})>> >>
     [] p = "(a)|b"  -> << <<C1({"a"})>>, <<C1({"b"})>> >>
@@ -125,26 +127,26 @@ NCaps(p) == IF CapAlt(p) = 0 THEN 0 ELSE 1
 
 \* positions reached after 0, 1, 2 ... characters of class set s starting at i (increasing)
 RECURSIVE Reach(_, _, _, _)
-Reach(S, i, s, u) == IF i < Len(S) /\ Ch(S, i, u).c \in s THEN <<i>> \o Reach(S, i + Ch(S, i, u).w, s, u) ELSE <<i>>
+Reach(S, i, s, m) == IF i < Len(S) /\ Ch(S, i, m.u).c \in s THEN <<i>> \o Reach(S, i + Ch(S, i, m.u).w, s, m) ELSE <<i>>
 \* end index of the match of atoms at[k..] at index i, -1 = failure (22.2.2 semantics of this fragment: a character
 \* atom consumes one character, the star is greedy and gives characters back on failure of the continuation)
 RECURSIVE MSeq(_, _, _, _, _)
-MSeq(at, k, S, i, u) ==
+MSeq(at, k, S, i, m) ==
   IF k > Len(at) THEN i
   ELSE LET a == at[k] IN
-       CASE a.t = "c"    -> IF i < Len(S) /\ Ch(S, i, u).c \in a.s THEN MSeq(at, k + 1, S, i + Ch(S, i, u).w, u) ELSE -1
-         [] a.t = "bol"  -> IF i = 0 THEN MSeq(at, k + 1, S, i, u) ELSE -1
-         [] a.t = "eol"  -> IF i = Len(S) THEN MSeq(at, k + 1, S, i, u) ELSE -1
-         [] a.t = "star" -> LET r0 == Reach(S, i, a.s, u)
+       CASE a.t = "c"    -> IF i < Len(S) /\ Ch(S, i, m.u).c \in a.s THEN MSeq(at, k + 1, S, i + Ch(S, i, m.u).w, m) ELSE -1
+         [] a.t = "bol"  -> IF i = 0 \/ (m.ml /\ S[i] = "n") THEN MSeq(at, k + 1, S, i, m) ELSE -1
+         [] a.t = "eol"  -> IF i = Len(S) \/ (m.ml /\ S[i + 1] = "n") THEN MSeq(at, k + 1, S, i, m) ELSE -1
+         [] a.t = "star" -> LET r0 == Reach(S, i, a.s, m)
                                 r == IF a.n >= 0 /\ Len(r0) > a.n + 1 THEN SubSeq(r0, 1, a.n + 1) ELSE r0
-                                ok == {n \in 1..Len(r) : MSeq(at, k + 1, S, r[n], u) # -1}
-                            IN IF ok = {} THEN -1 ELSE MSeq(at, k + 1, S, r[Max(ok)], u)
+                                ok == {n \in 1..Len(r) : MSeq(at, k + 1, S, r[n], m) # -1}
+                            IN IF ok = {} THEN -1 ELSE MSeq(at, k + 1, S, r[Max(ok)], m)
 \* the matcher at index i: end index e (-1 = failure) and the captures
-MatchAt(p, S, i, u) ==
-  LET A == Alts(p, u)
-      hit == {n \in 1..Len(A) : MSeq(A[n], 1, S, i, u) # -1}
+MatchAt(p, S, i, m) ==
+  LET A == Alts(p, m)
+      hit == {n \in 1..Len(A) : MSeq(A[n], 1, S, i, m) # -1}
   IN IF hit = {} THEN [e |-> -1, c |-> <<>>]
-     ELSE LET n == Min(hit) e == MSeq(A[n], 1, S, i, u)
+     ELSE LET n == Min(hit) e == MSeq(A[n], 1, S, i, m)
           IN [e |-> e, c |-> IF CapAlt(p) = 0 THEN <<>> ELSE IF n = CapAlt(p) THEN <<Sub(S, i, e)>> ELSE <<"undef">>]
 
 -----------------------------------------------------------------------------
@@ -154,7 +156,7 @@ Fail == [i |-> -1, e |-> -1, c |-> <<>>]
 RECURSIVE Scan(_, _, _, _)
 Scan(p, f, S, i) ==                                             \* step 13
   IF i > Len(S) THEN Fail
-  ELSE LET m == MatchAt(p, S, i, U(f)) IN
+  ELSE LET m == MatchAt(p, S, i, Md(f)) IN
        IF m.e # -1 THEN [i |-> i, e |-> m.e, c |-> m.c]
        ELSE IF Y(f) THEN Fail
        ELSE Scan(p, f, S, Adv(S, i, U(f)))
@@ -322,11 +324,13 @@ SplitA(S, lim) ==
      act' = [op |-> "split", s |-> Str(S), lim |-> lim, res |-> [v |-> r.a, xc |-> r.n]]
 
 \* longer subjects with surrogate pairs in every position relative to lastIndex 0, 1, 2
+\* subjects with a line terminator ("n" = U+000A): the flags m and s matter only there
+NLSubjects == { <<"n">>, <<"a", "n">>, <<"n", "a">>, <<"a", "n", "a">>, <<"b", "n", "a", "b">>, <<"a", "n", "n", "a">>, <<"a", "n", "b">>, <<"a", "b", "n">> }
 ExtraQuick == { <<"a", "H", "L">>, <<"H", "L", "a">>, <<"H", "L", "b">>, <<"b", "H", "L">>, <<"a", "a", "b">>, <<"a", "b", "b">>,
                 <<"b", "a", "b">>, <<"a", "b", "a">>, <<"b", "b", "a">>, <<"H", "L", "H">>, <<"L", "H", "L">>, <<"H", "H", "L">>,
                 <<"a", "H", "L", "b">>, <<"H", "L", "H", "L">>, <<"a", "b", "a", "b">>, <<"b", "H", "L", "a">>, <<"a", "a", "H", "L">>,
-                <<"H", "L", "a", "b">>, <<"b", "b", "a", "b">> }
-\* the flags i, m, s are neutral on this alphabet: objects that carry one of them are driven over the short subjects only
+                <<"H", "L", "a", "b">>, <<"b", "b", "a", "b">> } \cup NLSubjects
+\* the flags i, m, s matter on few subjects only: objects that carry one of them are driven over the short subjects
 SmallSubjects == UNION {[1..k -> Units] : k \in 0..2} \cup ExtraQuick
 \* (IF, not \/: TLC would enumerate a transition once per true disjunct)
 SubjOK(S) == IF flags \cap {"i", "m", "s"} = {} THEN TRUE ELSE S \in SmallSubjects
@@ -375,8 +379,8 @@ ExecOK(S) ==
                 /\ Len(x.c) = NCaps(pat)
                 /\ Bound(S, start) => (Bound(S, x.i) /\ Bound(S, x.e))               \* under u no surrogate pair is torn
                 \* leftmost: no earlier character boundary admits a match
-                /\ \A j \in start..(x.i - 1) : Bound(S, j) => MatchAt(pat, S, j, U(flags)).e = -1
-     /\ (~x.ok /\ ~Y(flags) /\ Bound(S, start)) => \A j \in start..Len(S) : Bound(S, j) => MatchAt(pat, S, j, U(flags)).e = -1
+                /\ \A j \in start..(x.i - 1) : Bound(S, j) => MatchAt(pat, S, j, Md(flags)).e = -1
+     /\ (~x.ok /\ ~Y(flags) /\ Bound(S, start)) => \A j \in start..Len(S) : Bound(S, j) => MatchAt(pat, S, j, Md(flags)).e = -1
 ExecInv == Live => \A S \in Subjects : ExecOK(S)
 
 \* --- the global loop: matches are ordered, disjoint, make progress; replacing each match by itself is the identity --
@@ -406,10 +410,10 @@ SearchInv == Live => \A S \in Subjects : Exec(pat, flags, S, 0).i = Exec(pat, fl
 
 -----------------------------------------------------------------------------
 \* Output for the edge replay (binding A)
-FlagMenu == SUBSET {"g", "u", "y"}
+FlagMenu == SUBSET {"g", "u", "y"} \cup {{"m"}, {"s"}, {"g", "m"}, {"s", "y"}}
 FlagMenuX == FlagMenu \cup {{"g", "i"}, {"m", "y"}, {"s", "u"}, {"g", "i", "m", "s", "u", "y"}}
 RepsAll == {"x", "$&$&", "tpl", "fn"}
-NoExtra == {}
+NoExtra == NLSubjects
 NoCtor == 0 - 1          \* (a .cfg file cannot write a negative number)
 St(p, f, l) == [pat |-> p, flags |-> FlagStr(f), li |-> l]
 Emit == PrintT(ToJson([f |-> St(pat, flags, li), l |-> act', t |-> St(pat', flags', li')]))
